@@ -97,6 +97,31 @@ def run(ctx) -> None:
             else:
                 return v
 
+    # guard-clause fast paths: `if not original: return dict(overrides)` - a copy of one side
+    # is the merge when the other side is known to be None / empty there, and the copied side
+    # must not be None itself (None behaves like an empty dictionary)
+    def _fast_path(n) -> bool:
+        v = n.ast.value
+        if v is None:
+            return False
+        if _is_empty_dict(v):
+            side, other = None, (p0, p1)
+        elif _is_copy_of(v, p0):
+            side, other = p0, (p1,)
+        elif _is_copy_of(v, p1):
+            side, other = p1, (p0,)
+        else:
+            return False
+        empty_other = all(facts.implied(n.id, ast.Name(id=o, ctx=ast.Load()), False) for o in other)
+        rep.check("C17.R2", empty_other, f, n.ast, f"`{ast.unparse(n.ast)}` is taken only where the other side is None or empty", f"`{ast.unparse(n.ast)}` returns a copy of one side although the other side may have content there: its keys are lost")
+        if side is not None:
+            safe = _none_safe(v) or facts.implied(n.id, ast.Name(id=side, ctx=ast.Load()), True) or facts.implied(n.id, ast.parse(f"{side} is not None", mode="eval").body, True)
+            rep.check("C17.R2", safe, f, n.ast, f"`{side}` cannot be None where it is copied", f"`{ast.unparse(v)}` is reached with `{side}` possibly None (both arguments None / the other one empty): merge_config raises TypeError instead of treating None as an empty dictionary")
+        return True
+
+    fast = [n for n in returns if n.ast.value is not None and not isinstance(_unwrap_copy(n.ast.value), ast.Name) and _fast_path(n)]
+    fast += [n for n in returns if n.ast.value is not None and isinstance(n.ast.value, ast.Call) and n not in fast and any(rd.text(m.id, _unwrap_copy(m.ast.value)) != rd.text(n.id, _unwrap_copy(n.ast.value)) for m in returns if m is not n and m.ast.value is not None and isinstance(m.ast.value, ast.Name)) and (_is_copy_of(n.ast.value, p0) or _is_copy_of(n.ast.value, p1)) and _fast_path(n)]
+    returns = [n for n in returns if n not in fast]
     rvars = {rd.text(n.id, _unwrap_copy(n.ast.value)) for n in returns if n.ast.value is not None}
     if len(rvars) != 1 or not all(isinstance(_unwrap_copy(n.ast.value), ast.Name) for n in returns if n.ast.value is not None):
         rep.unrecognised("C17.R2", f, f.node, f"merge_config does not return a single result variable ({sorted(rvars)})")
@@ -189,6 +214,8 @@ def run(ctx) -> None:
     empties = [n for n in base_defs if _is_empty_dict(n.ast.value)]
     if empties or any(_none_safe(c.ast.value) for c in copy_nodes if c in base_defs):
         rep.hold("C17.R4", f, (empties or copy_nodes)[0].ast, f"a falsy/None `{p0}` yields an empty base")
+    elif any(facts.implied(n.id, ast.Name(id=p0, ctx=ast.Load()), False) for n in fast) and all(facts.implied(c.id, ast.Name(id=p0, ctx=ast.Load()), True) for c in copy_nodes):
+        rep.hold("C17.R4", f, fast[0].ast, f"a falsy/None `{p0}` is answered by a fast path; the base copy is only reached with a non-empty `{p0}`")
     else:
         rep.violate("C17.R4", f, base_defs[0].ast, f"no empty base for a None `{p0}`")
 
